@@ -34,9 +34,32 @@ pub struct Prog {
     pub pre: Vec<(String, Option<String>)>,
 }
 
+/// a caller-supplied name may be written "F(x,y=2)": a macro with formals (and defaults)
+fn split_formals(k: &str) -> (String, Vec<(String, Option<String>)>) {
+    match k.split_once('(') {
+        None => (k.to_string(), vec![]),
+        Some((n, rest)) => {
+            let inner = rest.trim_end_matches(')');
+            let f = inner
+                .split(',')
+                .map(|a| match a.split_once('=') {
+                    Some((x, d)) => (x.trim().to_string(), Some(d.trim().to_string())),
+                    None => (a.trim().to_string(), None),
+                })
+                .collect();
+            (n.to_string(), f)
+        }
+    }
+}
+
 pub fn to_defs(pre: &[(String, Option<String>)]) -> Defs {
     let mut d = Defs::new();
     for (k, v) in pre {
+        let (name, formals) = split_formals(k);
+        if !formals.is_empty() {
+            d.insert(name.clone(), Some(Define::new(name, formals, v.as_ref().map(|b| DefineText::new(b.clone(), None)))));
+            continue;
+        }
         match v {
             None => {
                 d.insert(k.clone(), None);
@@ -52,6 +75,11 @@ pub fn to_defs(pre: &[(String, Option<String>)]) -> Defs {
 pub fn to_table(pre: &[(String, Option<String>)]) -> Table {
     let mut t = Table::new();
     for (k, v) in pre {
+        let (name, formals) = split_formals(k);
+        if !formals.is_empty() {
+            t.insert(name.clone(), Some(Def { name, formals, body: v.clone(), origin: None }));
+            continue;
+        }
         match v {
             None => {
                 t.insert(k.clone(), None);
@@ -597,6 +625,10 @@ pub fn macro_extra_profile() -> Space<Prog> {
         (vec![f1("F", "x", "x"), u("F", Some(vec!["(a, (b, c))"])), u("F", Some(vec!["[a][b]"])), u("F", Some(vec!["a ? b : c"]))], vec![]),
         (vec![def("A", "a \\\n b \\\n c"), Item::Text, u("A", None), Item::Text], vec![]),
         (vec![Item::Define { name: "__LINE__".into(), formals: None, body: "99".into() }, Item::Line], vec![]),
+        (vec![Item::Text, u("CF", Some(vec!["1"])), Item::Text, u("CF", Some(vec!["1", "3"])), Item::Text], vec![("CF(x,y=2)".into(), Some("x + y".into()))]),
+        (vec![Item::Text, u("CF", None)], vec![("CF(x)".into(), Some("x".into()))]),
+        (vec![Item::Text, u("CF", Some(vec![""])), Item::Text], vec![("CF(x)".into(), None)]),
+        (vec![Item::Cond { neg: false, name: "CF".into(), then: vec![Item::Text], elsifs: vec![], els: Some(vec![Item::Text]) }], vec![("CF(x)".into(), Some("x".into()))]),
         (vec![f1("F", "x", "\"a\\\"x\" x"), Item::Text, u("F", Some(vec!["p"])), Item::Text], vec![]),
         (vec![f1("F", "x", "\"x\\\\\" x \"x\""), Item::Text, u("F", Some(vec!["p"])), Item::Text], vec![]),
     ];
